@@ -73,6 +73,10 @@ def support_one(prefix):
 
 
 def main():
+    # the library prints diagnostics (e.g. "parse_types: skipping item ...") to stdout: keep the protocol channel clean
+    proto = os.fdopen(os.dup(1), 'w')
+    os.dup2(2, 1)
+    sys.stdout = sys.stderr
     req = json.load(sys.stdin)
     mode = req.get('mode', 'build')
     keep_contents = req.get('keep_contents', False)
@@ -92,7 +96,8 @@ def main():
             out.append({'id': case['id'], 'result': parse_one(case['json_ast'])})
         elif mode == 'support':
             out.append({'id': case['id'], 'result': support_one(case['prefix'])})
-    json.dump({'hashseed': os.environ.get('PYTHONHASHSEED'), 'pid_independent': True, 'out': out}, sys.stdout)
+    json.dump({'hashseed': os.environ.get('PYTHONHASHSEED'), 'pid_independent': True, 'out': out}, proto)
+    proto.flush()
 
 
 if __name__ == '__main__':
